@@ -616,7 +616,7 @@ impl<T: ObjectStore> ObjectStore for EncryptedStore<T> {
     }
 
     async fn get_opts(&self, location: &Path, options: GetOptions) -> Result<GetResult> {
-        let mut retried = false;
+        let mut missing: Option<Option<String>> = None;
         loop {
             let meta = self.inner.get_meta(location).await?;
             self.verify_metadata(location, &meta)?;
@@ -682,9 +682,11 @@ impl<T: ObjectStore> ObjectStore for EncryptedStore<T> {
                     // The cached pointer — generational or legacy — may be
                     // stale after a concurrent overwrite: the generation was
                     // replaced and reclaimed, or the legacy payload was
-                    // migrated away. Re-resolve once.
-                    if !retried {
-                        retried = true;
+                    // migrated away. Re-resolve for as long as the pointer
+                    // keeps moving; give up only when the very generation
+                    // that was just re-resolved is missing.
+                    if missing.as_ref() != Some(&meta.generation) {
+                        missing = Some(meta.generation.clone());
                         self.inner.refresh_meta(location).await?;
                         continue;
                     }
@@ -739,7 +741,7 @@ impl<T: ObjectStore> ObjectStore for EncryptedStore<T> {
             return Ok(Vec::new());
         }
 
-        let mut retried = false;
+        let mut missing: Option<Option<String>> = None;
         'retry: loop {
             let meta = self.inner.get_meta(location).await?;
             self.verify_metadata(location, &meta)?;
@@ -776,8 +778,8 @@ impl<T: ObjectStore> ObjectStore for EncryptedStore<T> {
                     {
                         Ok(data) => data,
                         Err(Error::NotFound { source, .. }) => {
-                            if !retried {
-                                retried = true;
+                            if missing.as_ref() != Some(&meta.generation) {
+                                missing = Some(meta.generation.clone());
                                 self.inner.refresh_meta(location).await?;
                                 continue 'retry;
                             }
